@@ -41,8 +41,10 @@ inline bool pt_on_curve(const Pt &p) {
 inline Pt pt_add(const Pt &p, const Pt &q) {
     U x1y2 = fp_mul(p.x, q.y), x2y1 = fp_mul(q.x, p.y), y1y2 = fp_mul(p.y, q.y), x1x2 = fp_mul(p.x, q.x);
     U dxxyy = fp_mul(ED_D(), fp_mul(x1x2, y1y2));
-    U x3 = fp_mul(fp_add(x1y2, x2y1), fp_inv(fp_add(U(1), dxxyy)));
-    U y3 = fp_mul(fp_add(y1y2, x1x2), fp_inv(fp_sub(U(1), dxxyy)));
+    U den_x = fp_add(U(1), dxxyy), den_y = fp_sub(U(1), dxxyy);
+    U inv = fp_inv(fp_mul(den_x, den_y));  // one shared inversion: 1/den_x = den_y * inv, 1/den_y = den_x * inv
+    U x3 = fp_mul(fp_add(x1y2, x2y1), fp_mul(den_y, inv));
+    U y3 = fp_mul(fp_add(y1y2, x1x2), fp_mul(den_x, inv));
     return Pt(x3, y3);
 }
 inline Pt pt_double(const Pt &p) { return pt_add(p, p); }
